@@ -29,7 +29,7 @@ def lanelet(F, lid, y, **kw):
 
 
 def template(F):
-    names = ["L1", "L2", "L3", "L4", "S1", "S2", "T1", "T2", "I", "INC"]
+    names = ["L1", "L2", "L3", "L4", "S1", "S2", "T1", "T2", "T3", "I", "INC", "INC2"]
     ids = {n: new_id(F, n) for n in names}
     vals = list(ids.values())
     for i in range(len(vals)):
@@ -41,8 +41,9 @@ def template(F):
     stop_light_only = F.new(StopLine, np.array([0.0, 0.0]), np.array([0.0, 1.0]), LineMarking.SOLID, None, F.set([i["T2"]]))
     stop_sign_only = F.new(StopLine, np.array([0.0, 2.0]), np.array([0.0, 3.0]), LineMarking.SOLID, F.set([i["S2"]]), None)
     la = {
+        # L1 has a right neighbour driving in the OPPOSITE direction (flag False, not None)
         "L1": lanelet(F, i["L1"], 0.0, successor=[i["L2"]], stop_line=stop_light_only, traffic_signs=F.set([i["S1"]]), traffic_lights=F.set([i["T2"]]),
-                      lanelet_type={LaneletType.URBAN}),
+                      adjacent_right=i["L4"], adjacent_right_same_direction=False, lanelet_type={LaneletType.URBAN}),
         "L2": lanelet(F, i["L2"], 2.0, predecessor=[i["L1"]], adjacent_left=i["L3"], adjacent_left_same_direction=True, stop_line=stop_sign_only,
                       traffic_signs=F.set([i["S2"]]), traffic_lights=F.set([i["T2"]]), lanelet_type={LaneletType.URBAN}),
         "L3": lanelet(F, i["L3"], 4.0, adjacent_right=i["L2"], adjacent_right_same_direction=True, predecessor=[i["L1"], i["L4"]],
@@ -51,13 +52,15 @@ def template(F):
                       lanelet_type={LaneletType.HIGHWAY}),
     }
     inc = F.new(IntersectionIncomingElement, i["INC"], F.set([i["L1"]]), F.set([]), F.set([i["L2"]]), F.set([i["L3"]]))
-    inter = F.new(Intersection, i["I"], [inc], F.set([i["L4"]]))
+    # a right-turn-only incoming (no straight, no left successor)
+    inc2 = F.new(IntersectionIncomingElement, i["INC2"], F.set([i["L3"]]), F.set([i["L2"]]), F.set([]), F.set([]), i["INC"])
+    inter = F.new(Intersection, i["I"], [inc, inc2], F.set([i["L4"]]))
     net = F.new(LaneletNetwork)
     for k in ("L1", "L2", "L3", "L4"):
         F.ok(lambda k=k: F.method(net, "add_lanelet", la[k]))
     for k in ("S1", "S2"):
         F.ok(lambda k=k: F.method(net, "add_traffic_sign", mk_sign(F, i[k]), set()))
-    for k in ("T1", "T2"):
+    for k in ("T1", "T2", "T3"):  # T3 is referenced by no lanelet
         F.ok(lambda k=k: F.method(net, "add_traffic_light", mk_light(F, i[k]), set()))
     F.ok(lambda: F.method(net, "add_intersection", inter))
     return net, ids, la
@@ -276,15 +279,17 @@ for _which in ("L1", "L2", "L4", "L1+L4"):
                 net, ids = F.attr(inp["sc"], "lanelet_network"), inp["ids"]
                 yield ("no remaining element refers to a removed id", no_dangling(F, net))
                 # which signs / lights are referenced by a remaining lanelet in the template
-                users = {"S1": {"L1", "L4"}, "S2": {"L2"}, "T1": {"L4"}, "T2": {"L1", "L2"}}
+                users = {"S1": {"L1", "L4"}, "S2": {"L2"}, "T1": {"L4"}, "T2": {"L1", "L2"}, "T3": set()}
                 gone = set(self.which)
-                exp_signs = [ids[s] for s in ("S1", "S2") if users[s] - gone]
-                exp_lights = [ids[s] for s in ("T1", "T2") if users[s] - gone]
+                # an element goes exactly when a removed lanelet referenced it and no remaining lanelet does; T3 (referenced by nobody) stays
+                stays = lambda e: bool(users[e] - gone) or not (users[e] & gone)
+                exp_signs = [ids[s] for s in ("S1", "S2") if stays(s)]
+                exp_lights = [ids[s] for s in ("T1", "T2", "T3") if stays(s)]
                 ex = existing(F, net)
                 yield ("a sign is removed iff no remaining lanelet references it", same_members(ex["sign"], exp_signs))
                 yield ("a light is removed iff no remaining lanelet references it", same_members(ex["light"], exp_lights))
-                rs = [ids[s] for s in ("S1", "S2") if not (users[s] - gone)]
-                rl = [ids[s] for s in ("T1", "T2") if not (users[s] - gone)]
+                rs = [ids[s] for s in ("S1", "S2") if not stays(s)]
+                rl = [ids[s] for s in ("T1", "T2", "T3") if not stays(s)]
                 expect = {k: z3.BoolVal(k not in gone) for k in inp["la"]}
                 yield ("remaining lanelets keep their relations minus the removed ids",
                        frame(F, net, inp["before"], [ids[k] for k in self.which], rs, rl, expect))
@@ -341,6 +346,24 @@ class CutOutByShapeAndTypes(Contract):
             yield ("no remaining element refers to a lanelet, sign or light that is not in the new network", no_dangling(F, new))
             yield ("the excluded type (L4, HIGHWAY) is never kept", conj(T(e) != T(ids["L4"]) for e in ex["lanelet"]))
             # kept lanelets are exactly those whose polygon intersects the shape (uninterpreted predicate, evaluated through the real objects)
+            kept = {}
             for k in ("L1", "L2", "L3"):
                 hit = F.method(F.attr(inp["shape"], "shapely_object"), "intersects", F.attr(F.attr(inp["la"][k], "polygon"), "shapely_object"))
-                yield ("%s kept iff its polygon intersects the shape" % k, disj(T(e) == T(ids[k]) for e in ex["lanelet"]) == B(hit))
+                kept[k] = disj(T(e) == T(ids[k]) for e in ex["lanelet"])
+                yield ("%s kept iff its polygon intersects the shape" % k, kept[k] == B(hit))
+            kept["L4"] = z3.BoolVal(False)
+            # intersections: an incoming is kept exactly when one of its incoming lanelets and one of its successors (of any kind) is kept
+            spec = {"INC": (["L1"], {"successors_right": [], "successors_straight": ["L2"], "successors_left": ["L3"]}),
+                    "INC2": (["L3"], {"successors_right": ["L2"], "successors_straight": [], "successors_left": []})}
+            incs = [inc for inter in F.items(F.attr(new, "intersections")) for inc in F.items(F.attr(inter, "incomings"))]
+            for name, (inl, succ) in spec.items():
+                present = disj(T(F.attr(inc, "incoming_id")) == T(ids[name]) for inc in incs)
+                should = z3.And(disj(kept[k] for k in inl), disj(kept[k] for ks in succ.values() for k in ks))
+                yield ("incoming %s kept iff an incoming lanelet and a successor of it are kept" % name, present == should)
+                for inc in incs:
+                    same = T(F.attr(inc, "incoming_id")) == T(ids[name])
+                    for attr, ks in succ.items():
+                        got = F.keys(F.attr(inc, attr))
+                        want = conj([z3.Implies(kept[k], disj(T(g) == T(ids[k]) for g in got)) for k in ks] +
+                                    [disj(z3.And(T(g) == T(ids[k]), kept[k]) for k in ks) for g in got])
+                        yield ("incoming %s: %s restricted to the kept lanelets" % (name, attr), z3.Implies(same, want))
